@@ -62,7 +62,7 @@ Section Eval.
     {| inner := v; path := pth ++ [c_lbr] ++ dec_of_nat i ++ [c_rbr]; ploc := l ++ [SIdx i] |}.
   (* Pointer::empty: the "internal" pointer a filter puts around the node under test.
      The ghost location restarts at [] : locations under it are relative and never reported. *)
-  Definition ptr_empty (v : T) (l : loc) : ptr := {| inner := v; path := []; ploc := l |}.
+  Definition ptr_empty (v : T) : ptr := {| inner := v; path := []; ploc := [] |}.
   Definition is_internal (p : ptr) : bool := match path p with [] => true | _ => false end.
   Definition root_ptr (root : T) : ptr := {| inner := root; path := [c_dollar]; ploc := [] |}.
 
@@ -422,18 +422,18 @@ Section Eval.
                        end) ds.
 
   (* filter.rs, given process_elem of the filter as a function [elem] *)
-  Definition filter_item_of (elem : data -> data) (v : T) (l : loc) : bool :=
-    val_bool (elem (DRef (ptr_empty v l))).
+  Definition filter_item_of (elem : data -> data) (v : T) : bool :=
+    val_bool (elem (DRef (ptr_empty v))).
   Definition children_of (elem : data -> data) (p : ptr) : data :=
     match q_as_array Q (inner p) with
     | Some arr =>
         DRefs (map (fun '(i, e) => ptr_idx e (path p) (ploc p) i)
-                 (List.filter (fun '(i, e) => filter_item_of elem e (ploc p ++ [SIdx i])) (enum_from 0 arr)))
+                 (List.filter (fun '(i, e) => filter_item_of elem e) (enum_from 0 arr)))
     | None =>
         match q_as_object Q (inner p) with
         | Some obj =>
             DRefs (map (fun '(k, v) => ptr_key v (path p) (ploc p) k k)
-                     (List.filter (fun '(k, v) => filter_item_of elem v (ploc p ++ [SName k])) obj))
+                     (List.filter (fun '(k, v) => filter_item_of elem v) obj))
         | None => DNothing
         end
     end.
